@@ -45,6 +45,7 @@ type part struct {
 	labels     func(c *Case, tr *Trace) []string
 	exec       func(t *testing.T, c *Case) *Trace // default: sim bubble
 	expand     func(c *Case, tr *Trace) []*Case   // fault enumeration: variants derived from the base case and its run
+	enum       func(shard, shards int, tier string) []*Case // complete enumeration of a finite family instead of random generation
 }
 
 type checkDef struct {
@@ -304,6 +305,14 @@ func TestCheck(t *testing.T) {
 				vs = append(vs, m(c, tr)...)
 			}
 			st.Evaluations++
+			if tr.Fcx != nil {
+				if st.Extra == nil {
+					st.Extra = map[string]any{}
+				}
+				n, _ := st.Extra["schedules"].(int)
+				st.Extra["schedules"] = n + tr.Fcx.Schedules
+				st.Evaluations += tr.Fcx.Schedules - 1
+			}
 			st.Steps += tr.Steps
 			st.Frames += len(tr.Frames)
 			for l, n := range tr.Labels {
@@ -364,6 +373,28 @@ func TestCheck(t *testing.T) {
 			if len(st.Violations) > 0 {
 				t.Fail()
 			}
+			continue
+		}
+		if p.enum != nil {
+			shards := p.shards
+			if shards == 0 {
+				shards = 16
+			}
+			cases := p.enum(*flagShard, shards, *flagTier)
+			st.Requested = len(cases)
+			for _, c := range cases {
+				prop(nil, c)
+				if len(st.Violations) > 0 {
+					break
+				}
+			}
+			if st.Extra == nil {
+				st.Extra = map[string]any{}
+			}
+			st.Extra["enumerated_configurations"] = len(cases)
+			st.WallS = time.Since(start).Seconds()
+			b, _ := json.Marshal(st)
+			_ = os.WriteFile(filepath.Join(out, fmt.Sprintf("shard-%s-%s-%d.json", cd.prop, p.name, *flagShard)), b, 0o644)
 			continue
 		}
 		func() {
@@ -725,6 +756,33 @@ func init() {
 		{name: "c11_settings", gen: genC11Settings, monitors: []Monitor{monC11Settings}, labels: labelsC11, nontrivial: ntC11Settings, quick: 600, thorough: 15000},
 	},
 		rule: "part c11_matrix: the full matrix {client, server} x {flow control enabled, disabled, legacy} x {forward, reverse} with one RPC of every shape, wire-tap clauses (window_update / revision one iff both advertise and neither disabled; nothing revision-one towards a peer that did not advertise) and completion of every RPC; part c11_legacy_client: a frame-level revision-zero reference client against the real server; part c11_settings: a raw server presenting generated settings (revision lists incl. empty, duplicates, unknown 2/7/-1; any window; wrong stream id; wrong first frame; stream end before settings) judged by a model of the negotiation (highest common revision, empty = revision zero, otherwise the tunnel fails with an error at the drained point after Start); non-trivial (settings part) = anything but the stock settings message"})
+}
+
+func init() {
+	register(&checkDef{prop: "C18", parts: []part{
+		{name: "c18", gen: genC18, monitors: []Monitor{monC18}, labels: labelsC18, nontrivial: ntC18, quick: 2500, thorough: 80000},
+	},
+		rule: "grpc-timeout header values from a grammar (all six units and other characters; 1-20 digit strings incl. leading zeros, per-unit int64-overflow boundaries -1/0/+1, 99999999/100000000; signs, spaces, empty, unit only, digits only, non-ASCII digits; 1-3 repeated headers) attached to tunneled calls through the public API in a synctest bubble; oracle: a reference decoder written from the gRPC wire specification (cross-checked against a copy of grpc-go's decoder on every value) - well-formed: ctx.Deadline() minus virtual now is exactly the encoded duration; overflowing: further away than 100 years or none; malformed: no deadline; non-trivial = a malformed, overflowing or 8-digit value"})
+}
+
+func init() {
+	register(&checkDef{prop: "C05", exhaustive: true,
+		exhaustiveNote: "part fcx_small enumerates EVERY schedule (depth-first over the choice tree of the controlled scheduler) of every configuration of the small family: window 0-3 x 10 message lists of 0-4 byte messages x 11 credit lists (up to 3 credits of 1-3) x {cancel action, none}; exhaustive for that sub-space only (thorough tier: the whole family; quick tier: credit lists of length <= 2); label config_truncated counts configurations whose tree exceeded the run bound",
+		parts: []part{
+			{name: "fcx_small", enum: enumFcxSmall, exec: execFcx, monitors: []Monitor{monFcx("C05")}, labels: labelsFcx, nontrivial: ntFcx, quick: 1, thorough: 1},
+			{name: "fcx_sampled", gen: genFcxSampled, exec: execFcx, monitors: []Monitor{monFcx("C05")}, labels: labelsFcx, nontrivial: ntFcx, quick: 3000, thorough: 100000},
+			{name: "fcx_receiver", gen: genFcxReceiver, exec: execFcx, monitors: []Monitor{monFcx("C05")}, labels: labelsFcx, nontrivial: ntFcx, quick: 2000, thorough: 60000},
+		},
+		rule: "unit-level controlled scheduler over flow_control.go (verif constructors + yield points between load, wait, CAS, sendFunc and inside updateWindow): sender goroutine S, updater goroutine U and the atomic action cancel are released one at a time; oracle = terminal-state rule (a blocked sender only with all credit consumed and data remaining; all sent when credit suffices; context error after cancel) and safety at every sendFunc call; small family enumerated exhaustively, larger windows/messages sampled by rapid; receivers are checked against a queue+window model with one blocked reader; plus system-level credit accounting at drained quiescent points of generated streaming workloads; non-trivial = an update step ran while the sender sat between its load and its wait/CAS, or the schedule ended with the sender legitimately waiting for credit"})
+	addParts("C06", part{name: "fcx_sampled", gen: genFcxSampled, exec: execFcx, monitors: []Monitor{monFcx("C06")}, labels: labelsFcx, nontrivial: ntFcx, quick: 1500, thorough: 50000},
+		part{name: "fcx_receiver", gen: genFcxReceiver, exec: execFcx, monitors: []Monitor{monFcx("C06")}, labels: labelsFcx, nontrivial: ntFcx, quick: 1500, thorough: 40000})
+	addParts("C01", part{name: "fcx_chunking", gen: genFcxSampled, exec: execFcx, monitors: []Monitor{monFcx("C01")}, labels: labelsFcx, nontrivial: ntFcx, quick: 1500, thorough: 50000})
+}
+
+func init() {
+	addParts("C05", part{name: "c05_sim", gen: genC05Sim, monitors: []Monitor{monC05Sim}, labels: commonLabels, nontrivial: ntC05Sim, quick: 60, thorough: 2500})
+	// the accounting oracle also runs over the general workloads
+	addParts("C05", part{name: "mixed", gen: genMixed, monitors: []Monitor{monC05Sim}, labels: commonLabels, nontrivial: ntC05Sim, quick: 200, thorough: 6000})
 }
 
 var _ = strings.Join
